@@ -11,6 +11,7 @@
     types) prunes nothing."""
 import itertools
 import time
+import zlib
 
 import numpy as np
 
@@ -275,12 +276,81 @@ def check_spec(acc, spec, tier):
         acc.sample({"spec": SC.short(spec), "engine_states": acc.c["states"], "scheduler_states": acc.c["sched_states"]}, cap=1)
 
 
+class RunObs:
+    """SolveMC observer for whole solver runs (enumerate / minimise / maximise, restarts included): at the end of every pass
+    that does not fail, every constraint that is enabled - or disabled without being entailed by the current box - is
+    re-executed on the final views: it must not fail and (sub-cycle excepted) must not prune."""
+
+    def __init__(self, spec, acc):
+        self.spec, self.acc = spec, acc
+
+    def on_pass_start(self, a):
+        self.start = a[10][int(a[13][0])].copy()
+
+    def on_filter(self, *a):
+        pass
+
+    def on_pass_end(self, a, status):
+        if status == 0:
+            return
+        algorithms, var_bounds, param_bounds = a[1], a[2], a[3]
+        pidx, poff, pparams = a[6], a[7], a[8]
+        stack, ne, top = a[10], a[11], int(a[13][0])
+        cur = stack[top]
+        self.acc.c["solver_run_passes_checked"] += 1
+        if (cur[:, 0] > cur[:, 1]).any() or (cur[:, 0] < self.start[:, 0]).any() or (cur[:, 1] > self.start[:, 1]).any():
+            self.acc.violation("solver-run:domain-grew-or-empty", {"spec": SC.short(self.spec), "start": self.start.tolist(), "end": cur.tolist()},
+                               "a pass of a real solver run ended with an empty or a widened domain")
+            return
+        for k in range(len(algorithms)):
+            vs, ve = int(var_bounds[k, 0]), int(var_bounds[k, 1])
+            ps, pe = int(param_bounds[k, 0]), int(param_bounds[k, 1])
+            doms = stack[top, pidx[vs:ve]].astype(int) + poff[vs:ve].astype(int)
+            typ = K.NAME_OF_ALG[int(algorithms[k])]
+            params = tuple(int(v) for v in pparams[ps:pe])
+            box = tuple((int(lo), int(hi)) for lo, hi in doms)
+            if not ne[top, k]:
+                pred = K.PRED[typ]
+                if all(pred(x, params) for x in itertools.product(*[range(lo, hi + 1) for lo, hi in box])):
+                    continue  # really entailed
+            st, out, exc = propmc.safe_call(typ, box, params)
+            self.acc.c["reexecutions"] += 1
+            w = {"spec": SC.short(self.spec), "constraint_type": typ, "box": [list(b) for b in box], "flag_enabled": bool(ne[top, k]), "result": [st, out, exc]}
+            if exc or st == 0:
+                self.acc.violation(f"solver-run:{typ}:reexecution-fails-at-pass-end", w,
+                                   "re-executing a constraint that is not entailed on the final domains of a consistent pass fails")
+            elif tuple(out) != box and typ != "no_sub_cycle":
+                self.acc.violation(f"solver-run:{typ}:reexecution-prunes-at-pass-end", w,
+                                   "a pass of a real solver run ended before the fixpoint of a constraint that is not entailed")
+
+
+def check_spec_runs(acc, spec, tier):
+    from mc import solvemc as S
+
+    nv = len(spec["vars"])
+    cfgs = S.configs_for(spec, tier)
+    for cfg in cfgs[:2] + cfgs[4:5]:
+        for mode, var in (("min", nv - 1), ("max", 0), ("max", nv - 1)):
+            obs = RunObs(spec, acc)
+            with S.interpose(obs, want=("pass",)):
+                S.run(spec, cfg, mode, var)
+            acc.c["solver_runs"] += 1
+
+
 def unit(u):
     tier, specs = u
     acc = Acc()
     for spec in specs:
         acc.c["problems"] += 1
         check_spec(acc, spec, tier)
+    return acc
+
+
+def unit_runs(u):
+    tier, specs = u
+    acc = Acc()
+    for spec in specs:
+        check_spec_runs(acc, spec, tier)
     return acc
 
 
@@ -352,6 +422,10 @@ def run(tier, seed):
     acc = pmap(trig_unit, units, seed)
     eng, nspecs = SC.run_units(unit, tier, seed, ("F1", "F2", "F3", "F4", "F5", "F6"), chunk=20, filt=lambda s: eligible(s, tier))
     acc.merge(eng)
+    runs, _ = SC.run_units(unit_runs, tier, seed, ("F1", "F2", "F3", "F4", "F5", "F6"), chunk=40,
+                           filt=lambda s: len(s["cons"]) >= 1 and U.n_assignments(s) <= 300 and eligible(s, "thorough") and
+                           (tier == "thorough" or zlib.crc32(U.key(s).encode()) % 3 == 0 or s["tag"][:2] in ("F3", "F4", "F5")))
+    acc.merge(runs)
     cov = {
         "states": acc.c["sched_states"] + acc.c["states"] + acc.c["fixpoint_boxes"],
         "transitions": acc.c["sched_transitions"] + acc.c["transitions"] + acc.c["calls"],
@@ -363,8 +437,11 @@ def run(tier, seed):
                 "bound_consistency_algorithm body (pop_propagator replaced by the scheduler); every terminal state is checked "
                 "(shrink-only, re-execution fixpoint, unique greatest fixpoint for all-exact-BC problems); the real pop order "
                 "is replayed in every pass and must be an explored path (traces_validated_against_impl). (B) every fixpoint box "
-                "x every single-variable narrowing whose events miss the declared mask. non-trivial = pass with more than one "
+                "x every single-variable narrowing whose events miss the declared mask. (C) every pass of real minimise / maximise "
+                "runs (restarts included) is checked for shrink-only and for the re-execution fixpoint of every constraint that is "
+                "enabled or not entailed by the current box. non-trivial = pass with more than one "
                 "wake-up order / unwatched narrowing",
+        "optimisation_runs_monitored": acc.c["solver_runs"], "solver_run_passes_checked": acc.c["solver_run_passes_checked"],
         "engine_states": acc.c["states"], "scheduler_states": acc.c["sched_states"], "passes": acc.c["passes_explored"],
         "exact_bc_passes": acc.c["nt_exact_bc_passes"], "posting_permutations": acc.c["nt_posting_permutations"],
         "problems": nspecs, "exhaustive": True,
